@@ -241,7 +241,7 @@ struct Plan {
     base_cap: usize,
 }
 
-const DIRECTED: usize = 11;
+const DIRECTED: usize = 13;
 
 fn plan(tier_quick: bool, items: &[Item]) -> Plan {
     let dev = std::env::var("VERIF_C10_MUTANTS").ok().and_then(|s| s.parse::<usize>().ok());
@@ -317,6 +317,14 @@ fn directed_case(items: &[Item], d: usize) -> Option<Case> {
             let size: [u8; 4] = if d == 4 { [0x4E, 0x03, 0x00, 0x00] } else { [0xFF, 0xFF, 0xFF, 0x06] };
             v[14..18].copy_from_slice(&size);
             Some(Case { base: "tiny.mp3".into(), base_fmt: "mp3".into(), kind: "elem-header+directed".into(), evals: vec![Eval { ep: Ep::WithStream, hint: "mp3".into(), bytes: Arc::new(v), store: None }] })
+        }
+        11 | 12 => {
+            // minimal TIFF whose only IFD entry is a SubIFDs tag (0x014A, LONG) with a forged count
+            let count: u32 = if d == 11 { 0x0400_0000 } else { 0x4000_0000 };
+            let mut v = vec![b'I', b'I', 42, 0, 8, 0, 0, 0, 1, 0, 0x4A, 0x01, 4, 0];
+            v.extend_from_slice(&count.to_le_bytes());
+            v.extend_from_slice(&[0, 0, 0, 0, 0, 0, 0, 0]);
+            Some(Case { base: "tiny.tif".into(), base_fmt: "tif".into(), kind: "elem-header+directed".into(), evals: vec![Eval { ep: Ep::WithStream, hint: "tif".into(), bytes: Arc::new(v.clone()), store: None }, Eval { ep: Ep::WithStream, hint: "dng".into(), bytes: Arc::new(v), store: None }] })
         }
         _ => None,
     }
